@@ -132,7 +132,8 @@ Definition gen_missing_values (o : ode) (remove_unused : bool) (req : list (stri
       Some {| f_name := "missing_values";
               f_args := with_missing o (arg_list order);
               f_nret := length req;
-              f_body := prologue o ss keep_all (condition o remove_unused)
+              (* a requested parameter is unpacked even if no expression uses it (repaired behaviour, fix for C13) *)
+              f_body := prologue o ss keep_all (fun x => condition o remove_unused x || mem x (keys req))
                         ++ mv_body o req ord |}
   | _, _ => None
   end.
